@@ -54,18 +54,65 @@ DIFF_EVENTS = {
 DIFF_SCALARS = {"mcnorm": (1e-3, 1e3), "thr": (-50.0, 50.0), "sn": (1e-3, 1e3), "sw": (1e-3, 1e3), "ct0": (-1.0, 1.0)}
 
 
+_GEOM_RUN = {}
+
+
+def thrown_symbolic(v, ax):
+    """a RegionGeom after the real __init__ + throw (symbolic); each public per-event attribute is replaced by the scenario's array
+    at the point throw assigns it (attribute cut), so anything throw derives from them afterwards (e.g. a cache) is expressed in the
+    scenario's symbols"""
+    from contracts import geom
+
+    names = {"costhetaTrSubV": "cTrV", "costhetaTrSubN": "cTrN", "costhetaNSubV": "cNV", "betaTrSubN": "beta", "event_mask": "mask"}
+    cuts = {attr: (lambda ev, val, k=k: v[k]) for attr, k in names.items()}
+    run = geom.Run(attr_cuts=cuts, ev=ax)
+    if not run.ok or set(run.attr_terms) != set(names):
+        return None
+    return run.g
+
+
 def build_diffuse(scalar_cos):
     def build(v):
         from nuspacesim.simulation.geometry.region_geometry import RegionGeom
 
-        g = object.__new__(RegionGeom)
-        g.costhetaTrSubV, g.costhetaTrSubN, g.costhetaNSubV = v["cTrV"], v["cTrN"], v["cNV"]
-        g.betaTrSubN, g.event_mask, g.mcnorm = v["beta"], v["mask"], v["mcnorm"]
-        m = v["mask"]
+        if isinstance(v["trig"], A):
+            ax = v["trig"].axes[0]
+            g = thrown_symbolic(v, ax)
+            if g is None:
+                g = object.__new__(RegionGeom)
+                g.costhetaTrSubV, g.costhetaTrSubN, g.costhetaNSubV = v["cTrV"], v["cTrN"], v["cNV"]
+                g.betaTrSubN, g.event_mask = v["beta"], v["mask"]
+            else:
+                for k, val in list(vars(g).items()):
+                    if isinstance(val, A):
+                        val.origin = None
+            g.mcnorm = v["mcnorm"]
+        else:
+            g = v["__geom__"]
+        m = v["mask"] if isinstance(v["trig"], A) else g.event_mask
         ct = v["ct0"] if scalar_cos else v["ct"][m]
         return g.mcintegral, [v["trig"][m], ct, v["pexit"][m], v["thr"], v["sn"], v["sw"]], {}
 
     return build
+
+
+def diffuse_post_native(rng, v):
+    """native inputs: the geometry columns come from a real throw of the real object (so that anything throw caches is present)"""
+    from contracts import C02
+
+    n = len(v["trig"])
+    cfgs = ((525.0, 0.3, -1.1, 7.0, 3.0, 360.0), (33.0, -0.9, 2.5, 5.0, 1.5, 90.0), (1000.0, 1.2, 0.2, 25.0, 10.0, 180.0))
+    a, la, lo, limb, th, dphi = cfgs[int(rng.integers(0, len(cfgs)))]
+    g = C02.native_geom(a, la, lo, np.radians(limb), np.radians(th), np.radians(dphi))
+    with np.errstate(all="ignore"):
+        g.throw(rng.uniform(0.02, 0.98, (4, n)))
+    v = dict(v)
+    v["__geom__"] = g
+    v["cTrV"], v["cTrN"], v["cNV"], v["beta"], v["mask"], v["mcnorm"] = g.costhetaTrSubV, g.costhetaTrSubN, g.costhetaNSubV, g.betaTrSubN, g.event_mask, float(g.mcnorm)
+    # cone cosines around the thrown view-angle cosines so that both sides of the cut occur
+    v["ct"] = np.clip(g.costhetaTrSubV + rng.normal(0, 2e-4, n), -1, 1)
+    v["ct0"] = float(np.median(g.costhetaTrSubV))
+    return v
 
 
 def spec_diffuse(scalar_cos):
@@ -288,6 +335,7 @@ def run(ck):
     for scalar_cos, nm in ((False, "optical"), (True, "radio")):
         qn = "region_geometry:RegionGeom.mcintegral[%s]" % nm
         sc = Scenario(qn, build_diffuse(scalar_cos), DIFF_EVENTS, DIFF_SCALARS, positive=("mcnorm", "sn", "sw"))
+        sc.post_native = diffuse_post_native
         fc = FunctionCheck(ck, qn, sc, spec_diffuse(scalar_cos), ["mcintegral", "mcintegralgeoonly", "numEvPass"], select=lambda r: r[:3])
         fc.explore().obligations()
         fc.crosscheck(6 if quick else 25)
